@@ -133,8 +133,9 @@ SPECS["C12"] = dict(
 
 SPECS["C11"] = dict(
     title="Rough TLV round trip and layout: encode then view yields the same pairs",
-    lean_modules=["Woodpile.Props.C11"],
+    lean_modules=["Woodpile.Props.C11", "Woodpile.Props.C11S"],
     theorems=[
+        "Woodpile.Props.C11S.sink_agnostic",
         "Woodpile.Props.C11.sort_is_stable",
         "Woodpile.Props.C11.accepted_entries",
         "Woodpile.Props.C11.encode_layout",
@@ -488,8 +489,11 @@ _ABT_TRUST = ("Partial by nature: the theorems are about two memory-model MACHIN
 
 SPECS["C13"] = dict(
     title="AtomicBaseTime snapshots are never torn and never go backwards, on any schedule",
-    lean_modules=["Woodpile.Props.C13"],
+    lean_modules=["Woodpile.Props.C13", "Woodpile.Props.C13R"],
     theorems=[
+        "Woodpile.Props.C13R.epoch_pair_checks",
+        "Woodpile.Props.C13R.ra_no_panic_real",
+        "Woodpile.Props.C13R.ra_returned_pairs_check_real",
         "Woodpile.Props.C13.sc_invariant",
         "Woodpile.Props.C13.sc_hist_is_accepted_updates",
         "Woodpile.Props.C13.sc_snapshot_not_torn",
